@@ -1039,6 +1039,92 @@ def standalone_cases(codes, xerrs):
     return out
 
 
+
+# ---- the declaration scanner (scanContentSpec / scanChildren / scanMixed): token texts -------------------------------
+def depth_limit():
+    import re
+    src = open(os.path.join(V.REPO, "src", "xercesc", "validators", "DTD", "DTDScanner.cpp")).read()
+    m = re.search(r"#define\s+CONTENTSPEC_DEPTH_LIMIT\s+(\d+)", src)
+    if not m or not re.search(r"depth\s*>\s*CONTENTSPEC_DEPTH_LIMIT", src):
+        raise RuntimeError("CONTENTSPEC_DEPTH_LIMIT / its test `depth > CONTENTSPEC_DEPTH_LIMIT` not found in DTDScanner.cpp")
+    return int(m.group(1))
+
+
+def tokenise(txt):
+    import re
+    return re.findall(r"n\d+|[(),|?*+_#EA]", txt)
+
+
+def with_spaces(rng, txt, p=0.3):
+    """white space at the places the grammar allows: after '(', before ')', around ',' and '|', at the end"""
+    toks = tokenise(txt)
+    out = []
+    for i, t in enumerate(toks):
+        if t in "),|" and rng.random() < p:
+            out.append("_" * rng.randrange(1, 3))
+        out.append(t)
+        if t in "(,|" and rng.random() < p:
+            out.append("_" * rng.randrange(1, 3))
+    if rng.random() < p:
+        out.append("_")
+    return "".join(out)
+
+
+def gen_scan_cases(ctx):
+    """(kind, request, expected answer or None)"""
+    rng = ctx.rng
+    lim = depth_limit() + 1
+    out = []
+    # white space before the content spec is consumed by scanElementDecl before the modelled code starts: never generated
+    add = lambda kind, toks, exp: out.append((kind, "scan %d %s" % (lim, toks.lstrip("_") or "n1"), exp))
+    add("scan-kw", "E", "t=E")
+    add("scan-kw", "A", "t=A")
+    add("scan-kw", "E_", "t=E")
+    add("scan-kw", "n1", None)
+    n = 350 if ctx.tier == "quick" else 6000
+    for i in range(n):
+        t = rand_model(rng, rng.randrange(1, 6), rng.choice([NAMES, [0, 1, 2, 3, 4, 15]]), wide=True)
+        if i % 7 == 0:                                   # groups nested in first position, with suffixes
+            for _ in range(rng.randrange(1, 5)):
+                t = rng.choice([("S", [t]), ("T", ("S", [t])), ("S", [t, ("L", 1)]), ("C", [("O", t), ("L", 2)])])
+        base = text(t)
+        sp = with_spaces(rng, base, rng.choice([0.0, 0.2, 0.6]))
+        add("scan-grammar", sp, "t=K:" + polish(t))
+        toks = tokenise(sp)
+        for _ in range(2):                               # error paths: one or two token edits
+            m = list(toks)
+            for _e in range(rng.randrange(1, 3)):
+                op = rng.randrange(3)
+                alpha = ["(", ")", ",", "|", "?", "*", "+", "_", "n1", "n7", "#"]
+                if op == 0 and m:
+                    del m[rng.randrange(len(m))]
+                elif op == 1:
+                    m.insert(rng.randrange(len(m) + 1), rng.choice(alpha))
+                elif m:
+                    m[rng.randrange(len(m))] = rng.choice(alpha)
+            if m and not any(a[0] == "n" and b[0] == "n" for a, b in zip(m, m[1:])):   # two names would lex as one
+                add("scan-mutant", "".join(m), None)
+    for _ in range(60 if ctx.tier == "quick" else 600):
+        ns = [rng.choice([0, 1, 2, 3]) for _ in range(rng.randrange(0, 5))]
+        base = "(#" + "".join("|n%d" % k for k in ns) + ")" + ("*" if ns or rng.random() < 0.5 else "")
+        sp = with_spaces(rng, base, rng.choice([0.0, 0.4]))
+        add("scan-mixed", sp, "t=M:" + ",".join(str(k) for k in ns))
+        m = tokenise(sp)
+        k = rng.randrange(len(m))
+        m[k:k + 1] = rng.choice([[], ["*"], ["|"], ["n1"], [")"], ["_", "*"], [","], ["("]])
+        if m and not any(a[0] == "n" and b[0] == "n" for a, b in zip(m, m[1:])):
+            add("scan-mixed-mutant", "".join(m), None)
+    L = lim - 1
+    for D in (L - 1, L, L + 1, L + 2):                   # groups nested in NON-first position: depth D is reached
+        inner = "(n0)"
+        pol = "L0"
+        for _ in range(D):
+            inner = "(n1," + inner + ")"
+            pol = "S.L1." + pol
+        add("scan-depth", inner, ("t=K:" + pol) if D <= L else None)
+    add("scan-depth-first-position", "(" * (L + 500) + "n0" + ")" * (L + 500), "t=K:L0")    # no recursion: no limit
+    return out
+
 # ---- catalogue: one validity constraint broken at a time, checked directly on the implementation -----------------
 # (name, document, external subset or None, expected XMLValid code or None for "valid: no error at all")
 def vc_catalogue():
@@ -1106,6 +1192,41 @@ def vc_catalogue():
         ("standalone-ws-no", '<?xml version="1.0" standalone="no"?><!DOCTYPE r SYSTEM "x.dtd"><r> <a/></r>',
          "<!ELEMENT r (a)><!ELEMENT a EMPTY>", None),
     ]
+    # per-element state of the element stack must not leak to the next element opened at the same depth: an EMPTY element
+    # in both spellings after siblings / cousins that contained comments, PIs, references, CDATA
+    SD = "<!ELEMENT r (a,e,a?,e?)><!ELEMENT a (#PCDATA|q)*><!ELEMENT q (#PCDATA)><!ELEMENT e EMPTY>"
+    for tag, inner in (("comment", "x<!-- note -->"), ("pi", "<?p q?>"), ("charref", "&#65;&#32;"), ("cdata", "<![CDATA[x]]>"),
+                       ("entref", "&amp;&lt;"), ("nested-comment", "<q>y<!--c--></q>"), ("plain", "x")):
+        for sp, etext in (("tag", "<e/>"), ("pair", "<e></e>")):
+            cat.append(("slot-%s-then-empty-%s" % (tag, sp), D(SD, "<r><a>%s</a>%s</r>" % (inner, etext)), None, None))
+            cat.append(("slot-%s-then-empty-%s-twice" % (tag, sp),
+                        D(SD, "<r><a>%s</a>%s<a>%s</a>%s</r>" % (inner, etext, inner, etext)), None, None))
+        cat.append(("slot-%s-then-empty-with-comment" % tag, D(SD, "<r><a>%s</a><e><!--c--></e></r>" % inner), None,
+                    "EmptyElemHasContent"))
+        cat.append(("slot-%s-then-empty-with-pi" % tag, D(SD, "<r><a>%s</a><e><?p?></e></r>" % inner), None,
+                    "EmptyElemHasContent"))
+    cat.append(("slot-children-after-comment", D("<!ELEMENT r (a,b)><!ELEMENT a (#PCDATA)><!ELEMENT b (c)><!ELEMENT c EMPTY>",
+                                                 "<r><a><!--c--></a><b><c></c></b></r>"), None, None))
+    cat.append(("slot-empty-deeper", D("<!ELEMENT r (b,b)><!ELEMENT b (a,e)><!ELEMENT a (#PCDATA)><!ELEMENT e EMPTY>",
+                                       "<r><b><a><!--1--></a><e></e></b><b><a><?p?></a><e></e></b></r>"), None, None))
+    # enumerated / NOTATION values: exact token membership (prefixes, extensions, case variants are not members), and
+    # enumerations whose tokens are prefixes of one another are legal declarations
+    EN = E + "<!ATTLIST r k (alpha|beta|gamma) #IMPLIED>"
+    for v, exp in (("alp", "DoesNotMatchEnumList"), ("a", "DoesNotMatchEnumList"), ("alphabet", "DoesNotMatchEnumList"),
+                   ("Alpha", "DoesNotMatchEnumList"), ("gamm", "DoesNotMatchEnumList"), ("gammaa", "DoesNotMatchEnumList"),
+                   ("alpha", None), ("gamma", None)):
+        cat.append(("enum-value-%s" % v, D(EN, '<r k="%s"/>' % v), None, exp))
+    PF = E + "<!ATTLIST r k (on|once|off|o) #IMPLIED>"
+    for v, exp in (("on", None), ("once", None), ("o", None), ("off", None), ("onc", "DoesNotMatchEnumList"),
+                   ("of", "DoesNotMatchEnumList"), ("onceX", "DoesNotMatchEnumList")):
+        cat.append(("enum-prefix-tokens-%s" % v, D(PF, '<r k="%s"/>' % v), None, exp))
+    cat.append(("enum-prefix-tokens-default", D(E + '<!ATTLIST r k (once|on) "on">', "<r/>"), None, None))
+    cat.append(("enum-dup-among-prefixes", D(E + "<!ATTLIST r k (on|once|on) #IMPLIED>", "<r/>"), None, "AttrDupToken"))
+    NT = '<!ELEMENT r ANY><!NOTATION gif SYSTEM "g"><!NOTATION jpeg SYSTEM "j"><!NOTATION jp SYSTEM "p">'
+    for v, exp in (("jpe", "DoesNotMatchEnumList"), ("jpegs", "DoesNotMatchEnumList"), ("gi", "DoesNotMatchEnumList"),
+                   ("jpeg", None), ("gif", None)):
+        cat.append(("notation-value-%s" % v, D(NT + "<!ATTLIST r n NOTATION (gif|jpeg) #IMPLIED>", '<r n="%s"/>' % v), None, exp))
+    cat.append(("notation-prefix-tokens", D(NT + "<!ATTLIST r n NOTATION (jp|jpeg) #IMPLIED>", '<r n="jp"/>'), None, None))
     return [c for c in cat if c[0] != "undeclared-in-cm"]
 
 
@@ -1461,6 +1582,45 @@ def run(ctx):
                                              "change them", "name": name, "request": line, "document": d, "files": f,
                                              "expected": exp, "impl": o})
     kinds["standalone-entity"] = len(sc)
+    # ---- the declaration scanner: model (extracted scan_element_decl) vs DTDScanner on token texts -----------------
+    try:
+        scases = gen_scan_cases(ctx)
+    except Exception as e:
+        ctx.violation("translator", {"what": "cannot read the content-spec depth limit from DTDScanner.cpp", "error": repr(e)},
+                      no_input=True)
+        scases = []
+    if ctx.replay:
+        scases = [("replay", replay_req, replay_rec.get("expected"))] if replay_req.startswith("scan ") else []
+    sl = [c[1] for c in scases]
+    rci, simpl, serr_ = run_bin(xh, sl)
+    rcm, smodel, _ = run_bin(xm, sl)
+    if rci != 0 or len(simpl) != len(sl):
+        ctx.violation("harness-crash", {"what": "harness crashed on a content-spec text", "stderr": serr_[-2000:],
+                                        "request": sl[len(simpl)] if len(simpl) < len(sl) else None})
+        return
+    if rcm != 0 or len(smodel) != len(sl):
+        ctx.violation("model-crash", {"what": "model driver crashed on content-spec texts"}, no_input=True)
+        return
+    nsd = 0
+    scan_err_seen = {}
+    for (kind, rq, exp), i, mo in zip(scases, simpl, smodel):
+        ctx.count()
+        ctx.distinct(rq)
+        kinds[kind] = kinds.get(kind, 0) + 1
+        mo2 = mo
+        if mo.startswith("E:"):
+            scan_err_seen[mo[2:]] = scan_err_seen.get(mo[2:], 0) + 1
+            mo2 = "E:XF%d" % xerrs.get(mo[2:], -1)
+        bad_spec = exp is not None and i != exp
+        if i != mo2 or bad_spec:
+            nsd += 1
+            if nsd <= 3:
+                ctx.violation("scan-spec" if bad_spec else "scan-divergence",
+                              {"what": ("DTDScanner builds a different tree than the grammatical text denotes (or rejects it)"
+                                        if bad_spec else "DTDScanner and the model of scanContentSpec/scanChildren/scanMixed "
+                                        "differ on a content-spec text (tree or first fatal error)"),
+                               "request": rq, "impl": i, "model": mo, "expected": exp}, no_input=False)
+    ctx.coverage["scan_error_paths"] = scan_err_seen
     # ---- attributes ------------------------------------------------------------------------------------------------
     if ctx.replay:
         acases, l1, l0 = [], [], []
